@@ -320,7 +320,7 @@ func init() {
 	})
 	register(&propDef{
 		ID:          "C11",
-		Explanation: "Thin but genuine necessary conditions, decided by table comparison: jparse.jsonEscapes equals RFC 8259 section 7's two-character escape table exactly (no missing, changed or extra letter); true/false/null are lexed as boolean/boolean/null and parseBoolean maps each word to its own value; evalArray has an *ArrayNode case that appends a nested array literal as a unit without iterating over it; (LIT) literal values flow unchanged from token to result: the number nud stores the first result of strconv.ParseFloat(token text, 64) — the nearest double — only after testing its error, the string nud stores unescape(token text) only after testing its ok result, NegationNode.optimize folds a negated literal into the arithmetic negation of the operand's value (so -0 keeps its sign), and the functions eval dispatches number, string and boolean nodes to return reflect.ValueOf(node.Value) on every path (no cache or table in between). (W) nothing under Compile writes pre-existing memory and the literal evaluators (evalNumber/String/Boolean/Null/Array/Object) write only memory of the evaluation. NOT decided: \\u decoding, surrogate pairing, number scanning. (ESCSKIP) in scanString the rune after a backslash is consumed before the scan continues, so an escaped quote or backslash is not taken for the end of the literal.",
+		Explanation: "Thin but genuine necessary conditions, decided by table comparison: jparse.jsonEscapes equals RFC 8259 section 7's two-character escape table exactly (no missing, changed or extra letter); true/false/null are lexed as boolean/boolean/null and parseBoolean maps each word to its own value; evalArray has an *ArrayNode case that appends a nested array literal as a unit without iterating over it; (LIT) literal values flow unchanged from token to result: the number nud stores the first result of strconv.ParseFloat(token text, 64) — the nearest double — only after testing its error, the string nud stores unescape(token text) only after testing its ok result, NegationNode.optimize folds a negated literal into the arithmetic negation of the operand's value (so -0 keeps its sign), and the functions eval dispatches number, string and boolean nodes to return reflect.ValueOf(node.Value) on every path (no cache or table in between). (W) nothing under Compile writes pre-existing memory and the literal evaluators (evalNumber/String/Boolean/Null/Array/Object) write only memory of the evaluation. NOT decided: \\u decoding, surrogate pairing, number scanning. (ESCSKIP) in scanString the rune after a backslash is consumed before the scan continues, so an escaped quote or backslash is not taken for the end of the literal. (WSDEF) every set of whitespace characters the lexer tests for, including character sets handed to strings.IndexAny, is the same set.",
 		Rule:        commonRule,
 		Fixtures:    []string{"tab"},
 		Run: func(c *Ctx, r *Result) {
@@ -1156,7 +1156,7 @@ func init() {
 	})
 	register(&propDef{
 		ID:          "C12",
-		Explanation: "Decides the scope structure for all programs: (SCOPE) evalBlock and lambdaCallable.Call evaluate in a frame freshly created by newEnvironment whose parent is the current environment / the closure's captured environment; parameters are bound in that new frame; evalLambda, evalTypedLambda, evalPartial and evalObjectTransformation capture the env and context of their definition site; the parent link is written only by newEnvironment and followed only by the write-free lookup (bind cannot reach an outer frame). (W) Callable.Call has no environment parameter, so dynamic scoping or per-call state in a shared callable would need a write to pre-existing memory, which W excludes for every write in callable.go, env.go and the evaluator functions that build or apply function values (evalFunctionApplication/Call, evalPartial, evalLambda, evalBlock, ...) — a function value bound to a variable is never altered by composing, partially applying or calling it — in particular the context item and name of a built-in call live in a per-call copy (the defect behind a.$substringBefore($$.b.c.$substringBefore(\"z\"))). NOT decided: signature matching, placeholder order, chain/compose semantics. (CLOSURE) no store into a field of a lambda, partial or transform callable except into one the storing function has just allocated (directly or through a constructor).",
+		Explanation: "Decides the scope structure for all programs: (SCOPE) evalBlock and lambdaCallable.Call evaluate in a frame freshly created by newEnvironment whose parent is the current environment / the closure's captured environment; parameters are bound in that new frame; evalLambda, evalTypedLambda, evalPartial and evalObjectTransformation capture the env and context of their definition site; the parent link is written only by newEnvironment and followed only by the write-free lookup (bind cannot reach an outer frame). (W) Callable.Call has no environment parameter, so dynamic scoping or per-call state in a shared callable would need a write to pre-existing memory, which W excludes for every write in callable.go, env.go and the evaluator functions that build or apply function values (evalFunctionApplication/Call, evalPartial, evalLambda, evalBlock, ...) — a function value bound to a variable is never altered by composing, partially applying or calling it — in particular the context item and name of a built-in call live in a per-call copy (the defect behind a.$substringBefore($$.b.c.$substringBefore(\"z\"))). NOT decided: signature matching, placeholder order, chain/compose semantics. (CLOSURE) no store into a field of a lambda, partial or transform callable except into one the storing function has just allocated (directly or through a constructor). The parent link of a new frame is never a value read from another frame's parent link (no skipping of ancestors).",
 		Rule:        commonRule,
 		Fixtures:    []string{"w"},
 		Run: func(c *Ctx, r *Result) {
@@ -1196,7 +1196,7 @@ func init() {
 	})
 	register(&propDef{
 		ID:          "C20",
-		Explanation: "Decides the registry-visibility and registration-time clauses: (REG) in processExts/processVars every store into the registry map is dominated by the success edges of validName and newGoCallable/validVar applied to that entry; newEnv builds a child of baseEnv and binds $, then $now/$millis, then the expression's registry; updateRegistry only ranges over the map it is given. (LOCK) the global registry is accessed under its mutex and never escapes the critical section, so an Expr holds a per-key copy taken at Compile time and later package-level registrations cannot reach it; it is not referenced under Eval. (W) (*Expr).RegisterExts/RegisterVars write only their receiver's own registry and fresh memory; package-level registration writes only the locked global. NOT decided: the argument-conversion relation and the naming of errors (value-level). (HORDER) the EvalContextHandler hook is consulted before the UndefinedHandler hook sees the arguments; (CALLSEQ) the Go function is only invoked with validateArgTypes(validateArgCount(argv)), each error tested; (ZERO) a missing argument becomes a zero value only for Optional types, interface{} and reflect.Value; (ARGPOS) an ArgTypeError reports the index in the argument list plus one.",
+		Explanation: "Decides the registry-visibility and registration-time clauses: (REG) in processExts/processVars every store into the registry map is dominated by the success edges of validName and newGoCallable/validVar applied to that entry; newEnv builds a child of baseEnv and binds $, then $now/$millis, then the expression's registry; updateRegistry only ranges over the map it is given. (LOCK) the global registry is accessed under its mutex and never escapes the critical section, so an Expr holds a per-key copy taken at Compile time and later package-level registrations cannot reach it; it is not referenced under Eval. (W) (*Expr).RegisterExts/RegisterVars write only their receiver's own registry and fresh memory; package-level registration writes only the locked global. NOT decided: the argument-conversion relation and the naming of errors (value-level). (HORDER) the EvalContextHandler hook is consulted before the UndefinedHandler hook sees the arguments; (CALLSEQ) the Go function is only invoked with validateArgTypes(validateArgCount(argv)), each error tested; (ZERO) a missing argument becomes a zero value only for Optional types, interface{} and reflect.Value; (ARGPOS) an ArgTypeError reports the index in the argument list plus one. (ERRIS) no errors.Is/errors.As against an ErrUndefined sentinel under Eval.",
 		Rule:        commonRule,
 		Fixtures:    []string{"w", "lock", "shape"},
 		Run: func(c *Ctx, r *Result) {
@@ -1223,7 +1223,7 @@ func init() {
 func init() {
 	register(&propDef{
 		ID:          "C08",
-		Explanation: "Decides the panic/hang classes of Compile that are visible in the shape of the code, for every input string: (ERR) every error value that is returned, thrown to Parse's recover, or stored in jparse is nil, a *jparse.Error, lexer.err, or the result of another jparse function (inductively the same), every Error literal carries a declared non-zero ErrType (all of which have messages, TAB), Parse's deferred closure turns exactly the *Error panics into (nil, err), Compile hands Parse's error on with a nil expression and MustCompile panics exactly on err != nil; (LEX) abstract interpretation of the lexer over a finite domain (cursor position, width typestate, one known first rune per cell of the partition induced by the lexer's own constants and tables, unknown runes afterwards): no rewind by a stale width (the double backup behind Compile(\"!é\") and Compile(\"[1.䑁]\")), and every token returned by next other than EOF/error has consumed a rune, for every first rune (the empty-token hang behind function($x)<!>{$x}); (LOOP/REC) every loop under Compile has a recognised variant — parser loops consume a token or panic per cycle, lexer loops read a rune and leave at eof, accept predicates reject eof — and every recursive SCC a reviewed descent; (TAB/PANIC) each led is registered for exactly the tokens its switch handles, so every explicit 'unexpected ...' panic under Compile is unreachable. (BND) every native index and slice expression under Compile is in range: its bounds check is removed by the Go compiler's prove pass, or a difference-constraint proof gives 0 <= low <= high <= len, or the unproved part is covered by a reviewed one-site invariant (the lexer's cursor invariant being the one LEX maintains) — the class of Compile(\"function($x)<(>{$x}\"), which sliced with -1. NOT decided, and said so: stack depth on deeply nested input. (OPTALL) in every optimize method a child taken from the receiver as it was parsed is never stored into a node, appended to a node list or returned without having gone through optimize(): only optimised nodes are in the tree Compile returns, which is what keeps the interim node types away from eval. (ERRDROP) an error produced by a call inside a loop under Compile is used in the round that produced it.",
+		Explanation: "Decides the panic/hang classes of Compile that are visible in the shape of the code, for every input string: (ERR) every error value that is returned, thrown to Parse's recover, or stored in jparse is nil, a *jparse.Error, lexer.err, or the result of another jparse function (inductively the same), every Error literal carries a declared non-zero ErrType (all of which have messages, TAB), Parse's deferred closure turns exactly the *Error panics into (nil, err), Compile hands Parse's error on with a nil expression and MustCompile panics exactly on err != nil; (LEX) abstract interpretation of the lexer over a finite domain (cursor position, width typestate, one known first rune per cell of the partition induced by the lexer's own constants and tables, unknown runes afterwards): no rewind by a stale width (the double backup behind Compile(\"!é\") and Compile(\"[1.䑁]\")), and every token returned by next other than EOF/error has consumed a rune, for every first rune (the empty-token hang behind function($x)<!>{$x}); (LOOP/REC) every loop under Compile has a recognised variant — parser loops consume a token or panic per cycle, lexer loops read a rune and leave at eof, accept predicates reject eof — and every recursive SCC a reviewed descent; (TAB/PANIC) each led is registered for exactly the tokens its switch handles, so every explicit 'unexpected ...' panic under Compile is unreachable. (BND) every native index and slice expression under Compile is in range: its bounds check is removed by the Go compiler's prove pass, or a difference-constraint proof gives 0 <= low <= high <= len, or the unproved part is covered by a reviewed one-site invariant (the lexer's cursor invariant being the one LEX maintains) — the class of Compile(\"function($x)<(>{$x}\"), which sliced with -1. NOT decided, and said so: stack depth on deeply nested input. (OPTALL) in every optimize method a child taken from the receiver as it was parsed is never stored into a node, appended to a node list or returned without having gone through optimize(): only optimised nodes are in the tree Compile returns, which is what keeps the interim node types away from eval. (ERRDROP) an error produced by a call inside a loop under Compile is used in the round that produced it. (PAIR) every return of a (node, error) function of jparse has a nil error, a nil node, or forwards the pair returned by another such function.",
 		Rule:        commonRule,
 		Fixtures:    []string{"loop", "tab", "bnd", "ta", "shape"},
 		Run: func(c *Ctx, r *Result) {
